@@ -9,6 +9,7 @@ CONSTANTS
   ClassLevelOption = FALSE
   StoreBeforeValidate = FALSE
   ReorderStoresPlainKeys = FALSE
+  RefusedUnlinksFirst = FALSE
   Emit = FALSE
   EmitOff = 0
 SPECIFICATION Spec
